@@ -116,6 +116,12 @@ func judge(sh *shared, o *observation) {
 	}
 	// RemoteStarted is only ever set by the submit path, so a record that shows it after the
 	// restart showed it before the crash
+	if o.HeldLate {
+		// the held runner was scheduled too late after its release for this run to be the situation
+		// it is meant to be (the machine is overloaded): not judged, not a model case
+		im.Hist("held-runner:came-back-too-late-not-judged")
+		return
+	}
 	// O7: once nothing writes any more, what the daemon answers is what is on disk — the record
 	// and the real stdout file — (and by O6 stays so across a further restart)
 	if o.Disk != nil && o.Final.Listed && (o.Final.State != o.Disk.State || o.Final.Size != o.Disk.Size || o.Final.Detail != o.Disk.Detail ||
